@@ -1,9 +1,16 @@
 import Driver.Util
 import OptunaVerif.Model.Pruners
+import OptunaVerif.Generated.ReportMethods
 /-! Sub-driver `pruners`: the pruner models behind the line protocol (C16).
 
 Stateful ops (one in-memory study): `reset {dir}`, `ask`, `report {n, step, v}`, `tell {n, state}`,
 `shouldPrune {n, pruner, crc}` (→ decision + what the model computed on the way), `dump`.
+Every stateful answer carries `"gen"`: the same call through `ReportIR.stepG` (the interpreter of `Trial.report` / `Trial.should_prune`
+GENERATED from the source, `Generated/ReportMethods.lean`) — `null` when it agrees with the hand model on the answer and on the trial list.
+`reportglue {ndirs, inter:[[step, v]..], state, value|null, step|null, storageOk}` evaluates `Trial.report` on one trial object (hand model
++ generated interpreter): `{inter, writes, warned, err, gen}`;
+`pruneglue {ndirs, inter, state, answer, rebind}` evaluates `Trial.should_prune` on one trial object with a recording pruner that answers
+`answer` and (when `rebind`) rebinds attributes of the trial it is handed: `{out, inter, state, handed, gen}`.
 Stateless function ties: `fn {f: isFirst | promIdx | promStep | budgets | bracket | percentile | promotable | currentRung}`. -/
 open Lean
 namespace Driver.Sub.Pruners
@@ -134,6 +141,60 @@ def parseOp (j : Json) : P (Op × (Nat → Nat)) := do
     return (.shouldPrune (← natF j "n") (← parsePruner (← field j "pruner")), fun i => crcs.getD i 0)
   | s => throw s!"unknown op {s}"
 
+def errName : Option ReportErr → Json
+  | none => Json.null
+  | some .notImplemented => "NotImplementedError"
+  | some .typeError => "TypeError"
+  | some .valueError => "ValueError"
+  | some .storageError => "StorageError"
+
+def reportGlue (j : Json) : P Json := do
+  let nd ← natF j "ndirs"
+  let inter ← mapM' (fun p => do
+    match (← p.getArr?).toList with
+    | [a, b] => return ((← a.getInt?), (← parseXVal b))
+    | _ => throw "pair expected") (← arrF j "inter")
+  let st ← parseState (← field j "state")
+  let value ← match optF j "value" with
+    | none => pure none
+    | some v => if v.isNull then pure none else do pure (some (← parseXVal v))
+  let stp ← match optF j "step" with
+    | none => pure none
+    | some v => if v.isNull then pure none else do pure (some (← v.getInt?))
+  let ok ← boolF j "storageOk"
+  let o : TrialObj := ⟨nd, ⟨st, inter, []⟩⟩
+  let h := reportTrial o value stp ok
+  let g := OptunaVerif.ReportIR.interpReport OptunaVerif.Generated.ReportMethods.report o value stp ok
+  let pairs := fun (l : List (Int × XVal)) => Json.arr (l.map (fun p => Json.arr #[(p.1 : Json), xj p.2])).toArray
+  let gen : Json := match g with
+    | .ok r => if r == h then Json.null else Json.mkObj [("inter", pairs r.obj.cached.inter), ("writes", pairs r.writes), ("warned", r.warned), ("err", errName r.err)]
+    | .error _ => Json.mkObj [("raised", "interpreter error")]
+  return Json.mkObj [("inter", pairs h.obj.cached.inter), ("writes", pairs h.writes), ("warned", h.warned), ("err", errName h.err), ("gen", gen)]
+
+/-- `Trial.should_prune` on one trial object with a recording pruner: it answers `answer` and, when `rebind`, rebinds attributes of the
+trial it was handed (`trial.intermediate_values = {}; trial.state = PRUNED`). -/
+def pruneGlue (j : Json) : P Json := do
+  let nd ← natF j "ndirs"
+  let inter ← mapM' (fun p => do
+    match (← p.getArr?).toList with
+    | [a, b] => return ((← a.getInt?), (← parseXVal b))
+    | _ => throw "pair expected") (← arrF j "inter")
+  let st ← parseState (← field j "state")
+  let answer ← boolF j "answer"
+  let rebind ← boolF j "rebind"
+  let o : TrialObj := ⟨nd, ⟨st, inter, []⟩⟩
+  let prunerF : PTrial → Bool × PTrial := fun t => (answer, if rebind then { t with inter := [], state := .pruned } else t)
+  let h := shouldPruneTrial o prunerF
+  let g := OptunaVerif.ReportIR.interpShouldPrune OptunaVerif.Generated.ReportMethods.shouldPrune
+    OptunaVerif.Generated.ReportMethods.reportProg.latestIsCopy o prunerF
+  let pairs := fun (l : List (Int × XVal)) => Json.arr (l.map (fun p => Json.arr #[(p.1 : Json), xj p.2])).toArray
+  let show1 := fun (r : TrialObj × Option Bool) =>
+    [("out", optBoolJ r.2), ("inter", pairs r.1.cached.inter), ("state", (r.1.cached.state.code : Json))]
+  let gen : Json := match g with
+    | .ok r => if r == h then Json.null else Json.mkObj (show1 r)
+    | .error _ => Json.mkObj [("raised", "interpreter error")]
+  return Json.mkObj (show1 h ++ [("handed", pairs o.cached.inter), ("gen", gen)])
+
 def handle (s : Study) (j : Json) : Study × Json :=
   match j.getObjVal? "op" with
   | .ok (Json.str "reset") =>
@@ -145,11 +206,23 @@ def handle (s : Study) (j : Json) : Study × Json :=
     match fnCall j with
     | .ok r => (s, Json.mkObj [("r", r)])
     | .error e => (s, Json.mkObj [("k", "bad-op"), ("why", e)])
+  | .ok (Json.str "reportglue") =>
+    match reportGlue j with
+    | .ok r => (s, r)
+    | .error e => (s, Json.mkObj [("k", "bad-op"), ("why", e)])
+  | .ok (Json.str "pruneglue") =>
+    match pruneGlue j with
+    | .ok r => (s, r)
+    | .error e => (s, Json.mkObj [("k", "bad-op"), ("why", e)])
   | _ =>
     match parseOp j with
     | .error e => (s, Json.mkObj [("k", "bad-op"), ("why", e)])
     | .ok (op, crc) =>
       let (s', out) := step crc s op
+      let (sg, outg) := OptunaVerif.ReportIR.stepG OptunaVerif.Generated.ReportMethods.reportProg crc s op
+      let gen : Json := if sg.trials == s'.trials && outg == out then Json.null
+        else Json.mkObj [("hand", Json.mkObj [("out", optBoolJ out), ("trials", Json.arr (s'.trials.map trialJson).toArray)]),
+                         ("generated", Json.mkObj [("out", optBoolJ outg), ("trials", Json.arr (sg.trials.map trialJson).toArray)])]
       let extra : List (String × Json) :=
         match op with
         | .shouldPrune n p =>
@@ -157,7 +230,7 @@ def handle (s : Study) (j : Json) : Study × Json :=
           | some t => [("why", Json.mkObj (explain crc s n t p))]
           | none => []
         | _ => []
-      (s', Json.mkObj ([("out", optBoolJ out)] ++ extra))
+      (s', Json.mkObj ([("out", optBoolJ out), ("gen", gen)] ++ extra))
 
 /-- entry point: `driver pruners` -/
 def main : IO Unit := Driver.lineLoop handle (Study.init .minimize)
